@@ -54,3 +54,19 @@ Print Assumptions C05_check_all_unselectable.
 Theorem C05_removeparam_not_optimized : forall b, b_removeparam (blocker_optimize b) = b_removeparam b.
 Proof. reflexivity. Qed.
 Print Assumptions C05_removeparam_not_optimized.
+
+(* ------------------------------------------------------------------ translator tie: the control
+   structure of src/blocker.rs as extracted on this run (Generated.BlockerGen, written by
+   tools/gen_fragments/c01_blocker_structure.py) denotes the hand-written model *)
+From Coq Require Import String.
+From Adb Require Import Struct_Proofs.
+Import Generated.BlockerGen.
+
+Theorem C05_src_optimize_lists : forall b, blocker_optimize_by optimize_lists b = blocker_optimize b.
+Proof. exact optimize_lists_is_model. Qed.
+Print Assumptions C05_src_optimize_lists.
+
+Theorem C05_src_new_optimize_flags :
+  map (fun x => (fst (fst x), snd x)) new_lists = map (fun n => (n, named optimize_lists n)) blocker_fields.
+Proof. exact new_lists_flags. Qed.
+Print Assumptions C05_src_new_optimize_flags.
